@@ -587,6 +587,21 @@ fn c17_build(code: u16, state: &StateIn, reasons: &Option<Vec<String>>, noise: u
         printer.insert("printer-name".into(), MVal::Text { tag: 0x42, s: "paused".into() });
         printer.insert("printer-state-message".into(), MVal::Text { tag: 0x41, s: "media-jam".into() });
     }
+    // further unrelated printer attributes, in varying combinations (none of them may influence the decision)
+    let extra = noise >> 5;
+    if extra & 1 != 0 {
+        printer.insert("printer-is-accepting-jobs".into(), MVal::Boolean(extra & 2 != 0));
+    }
+    if extra & 4 != 0 {
+        printer.insert("queued-job-count".into(), MVal::Integer((extra as i32) - 3));
+        printer.insert("printer-up-time".into(), MVal::Integer(0));
+    }
+    if extra & 8 != 0 {
+        printer.insert("printer-info".into(), MVal::Text { tag: 0x41, s: "ready".into() });
+        printer.insert("printer-is-shared".into(), MVal::Boolean(true));
+        printer.insert("printer-type".into(), MVal::Enum(5));
+        printer.insert("job-state".into(), MVal::Enum(3));
+    }
     let op = |attrs: Vec<(&str, MVal)>| ippref::MGroup { tag: 1, attrs: attrs.into_iter().map(|(k, v)| (k.to_string(), v)).collect() };
     let mut groups = vec![op(vec![("attributes-charset", MVal::Text { tag: 0x47, s: "utf-8".into() }), ("attributes-natural-language", MVal::Text { tag: 0x48, s: "en".into() })])];
     if noise & 4 != 0 {
@@ -689,6 +704,13 @@ pub fn run_c17(args: &Args, tier: &str, seed: u64) -> Report {
         }
         reasons.push(Some((0..len).map(|i| INFORMATIONAL[i % INFORMATIONAL.len()].to_string()).collect()));
     }
+    for len in [17usize, 33] {
+        for pos in 0..len {
+            let mut v: Vec<String> = (0..len).map(|i| INFORMATIONAL[i % INFORMATIONAL.len()].to_string()).collect();
+            v[pos] = BLOCKING[pos % BLOCKING.len()].to_string();
+            reasons.push(Some(v));
+        }
+    }
     let states = Arc::new(states);
     let reasons = Arc::new(reasons);
     let codes = Arc::new(codes);
@@ -702,7 +724,7 @@ pub fn run_c17(args: &Args, tier: &str, seed: u64) -> Report {
             let c = codes[k % codes.len()];
             let s = &states[(k / codes.len()) % states.len()];
             let r = &reasons[k / codes.len() / states.len()];
-            c17_case(&mut rep, c, s, r, (k as u64 * 7 + seed) % 32, &replay);
+            c17_case(&mut rep, c, s, r, (k as u64 * 7 + seed) % 512, &replay);
             rep.count("grid_cases", 1);
             k += nthreads;
         }
@@ -733,11 +755,18 @@ pub fn run_c17(args: &Args, tier: &str, seed: u64) -> Report {
             let rs = match r.below(5) {
                 0 => None,
                 _ => {
-                    let n = r.range(1, 8);
-                    Some((0..n).map(|_| if r.chance(1, 6) { r.pick(&BLOCKING).to_string() } else { r.pick(&INFORMATIONAL).to_string() }).collect())
+                    // mostly short sets; sometimes long ones (a blocking keyword may sit anywhere, also far behind)
+                    let n = if r.chance(1, 6) { r.range(9, 64) } else { r.range(1, 8) };
+                    let mut v: Vec<String> = (0..n).map(|_| if n <= 8 && r.chance(1, 6) { r.pick(&BLOCKING).to_string() } else { r.pick(&INFORMATIONAL).to_string() }).collect();
+                    if n > 8 && r.chance(2, 3) {
+                        let at = if r.chance(1, 2) { n - 1 - r.range(0, 2).min(n - 1) } else { r.range(0, n - 1) };
+                        v[at] = r.pick(&BLOCKING).to_string();
+                    }
+                    Some(v)
                 }
             };
-            c17_case(&mut rep, code, &st, &rs, r.below(32), &replay);
+            let noise = r.below(512);
+            c17_case(&mut rep, code, &st, &rs, noise, &replay);
             rep.count("random_cases", 1);
             i += nthreads as u64;
         }
@@ -745,7 +774,7 @@ pub fn run_c17(args: &Args, tier: &str, seed: u64) -> Report {
     });
     let mut rep = merged("C17", tier, seed, parts);
     rep.extra.insert("grid_size".into(), J::Int(grid_total as i64));
-    rep.rule = "Responses from the grid {registered + boundary status codes (thorough: all 65536)} x printer-state {absent, idle, processing, stopped, other values, wrong syntax} x printer-state-reasons {absent, each single keyword of the blocking and informational vocabularies, sets of 2..6 keywords with a blocking word at every position, informational-only sets} x unrelated attributes/groups (look-alike attributes in other groups, second printer group), plus seeded random combinations; every response judged twice: built in memory and after reference-encode -> library parse (the parser decides set vs single value). Oracle: three-valued reference decision MUST_ERR(status) / MUST_FALSE / MUST_TRUE / UNSPECIFIED (state absent/other/wrong syntax without blocking reason). distinct = by response description.".into();
+    rep.rule = "Responses from the grid {registered + boundary status codes (thorough: all 65536)} x printer-state {absent, idle, processing, stopped, other values, wrong syntax} x printer-state-reasons {absent, each single keyword of the blocking and informational vocabularies, sets of 2..6, 17 and 33 keywords with a blocking word at every position, informational-only sets, random sets of up to 64} x unrelated attributes/groups (look-alike attributes in other groups, second printer group, further printer attributes such as printer-is-accepting-jobs in varying combinations), plus seeded random combinations; every response judged twice: built in memory and after reference-encode -> library parse (the parser decides set vs single value). Oracle: three-valued reference decision MUST_ERR(status) / MUST_FALSE / MUST_TRUE / UNSPECIFIED (state absent/other/wrong syntax without blocking reason). distinct = by response description.".into();
     rep.require(rep.sets.get("decisions").map(|s| s.len()).unwrap_or(0) == 4, "all four reference decisions exercised");
     rep
 }
